@@ -326,6 +326,13 @@ def _post_der(ctx):
             wrow = o8.describe_row(int(np.argmax(np.where(np.isnan(ep), np.inf, ep).max(axis=1)))) if ep.size else (0, 0)
             _observe(ctx, "pole convention: d/dphi at |sin phi| < 1e-9 recorded, not decided", lmax=lmax, max_abs_returned=conv, max_dev_from_true_derivative=dev, worst_row_l_m=list(wrow))
             ctx.count("dphi-points-at-pole-observed", int((~off).sum()))
+            # the documented convention itself IS decided where it is unambiguous: exactly at phi = 0.0 and phi = fl(pi)
+            # the polar derivative is zero (statement: "the poles, where the polar derivative is zero by documented convention")
+            exact = np.isin(ph[idx], np.array([0.0, np.pi]))
+            if exact.any():
+                zero = _maxabs(res[1][:, idx[exact]])
+                _chk(ctx, "dphi-zero-at-exact-pole", F_DER, float(zero), 1e-9 * (1.0 + lmax) ** 2, sig="nonzero-polar-derivative-at-pole", detail={"lmax": lmax, "max_abs": float(zero), "n_north": int(np.sum(ph[idx][exact] == 0.0)), "n_south": int(np.sum(ph[idx][exact] == np.pi))})
+                ctx.count("dphi-points-exactly-at-pole-decided", int(exact.sum()))
 
     return post
 
